@@ -23,12 +23,13 @@ Definition dec_happ (l : list Z) : happ * list Z :=
 Definition dec_proc (l : list Z) : proc * list Z :=
   (mkProc (nth0 0 l) (nth0 1 l) (nth0 2 l) (nth0 3 l), skipn 4 l).
 Definition dec_cpod (l : list Z) : cpod * list Z :=
-  let '(cs, r) := take_list (tl l) in (mkCpod (hdZ l) cs, r).
+  let '(cs, r) := take_list (tl l) in (mkCpod (hdZ l mod 10) cs, r).   (* tens digit: spelling of the list *)
 
 (* ---------- kind 1 *)
 Definition dec_budget (l : list Z) : binput * (Z * Z * Z) :=
   let capm := nth0 0 l in let alloc := nth0 1 l in
   let ak := nth0 2 l in let av := nth0 3 l in
+  let ak := ak mod 10 in                       (* tens digit: spelling of the reservedCPUs list *)
   let anno := if ak =? 1 then av else if ak =? 2 then av * 1000 else 0 in
   let thr := nth0 4 l in
   let mn := if zb (nth0 5 l) then Some (nth0 6 l) else None in
@@ -47,9 +48,9 @@ Definition dec_adjust (l : list Z) : ainput :=
   let '(old, r1) := take_list (skipn 2 l) in
   let '(procs, r2) := decode_seq dec_proc r1 in
   let '(pods, r3) := decode_seq dec_cpod r2 in
-  let resk := hdZ r3 in
+  let resk := hdZ r3 mod 10 in                 (* tens digit: spelling of the list *)
   let '(res, r4) := take_list (tl r3) in
-  let sysk := hdZ r4 in
+  let sysk := hdZ r4 mod 10 in
   let '(sys, _) := take_list (tl r4) in
   mkA b st old procs pods (if resk =? 1 then res else [])
       (if (sysk =? 1) || (sysk =? 2) then sys else []).
